@@ -33,6 +33,9 @@ def _data(case):
         X[:, j] = (ids * (j + 2)) % 5
     y = 3.0 * ids + 0.5
     w = (100.0 + ids) if case["weights"] else None
+    if w is not None:
+        for i in case.get("zero_w", []):
+            w[i % n] = 0.0           # a row of weight zero is still a training row: it counts in n and can be drawn
     return X, y, w
 
 
@@ -98,7 +101,8 @@ def check_bootstrap(case):
             require(not missing, "eligibility:row-never-drawn",
                     "rows %r never drawn in %d draws over n=%d (miss probability of a uniform sampler %.1e)" % (missing, draws, n, miss), facts)
     labels = ["n=1" if n == 1 else ("n<=4" if n <= 4 else "n>4"), "eligibility-applied" if elig else "eligibility-skipped",
-              "weights" if w is not None else "no-weights", "n_jobs=%s" % case["n_jobs"], "alpha<1" if alpha < 1 else "alpha>=1", "container:" + cont]
+              "weights" if w is not None else "no-weights", "n_jobs=%s" % case["n_jobs"], "alpha<1" if alpha < 1 else "alpha>=1", "container:" + cont,
+              "zero-weights" if (w is not None and (w == 0).any()) else "no-zero-weight"]
     return Outcome(labels, (n >= 2 and elig) or w is not None)
 
 
@@ -156,7 +160,7 @@ def _boot_cases(draw, tier="quick"):
     ne = draw(st.one_of(st.integers(1, 60), st.integers(40, 60)))
     return dict(n=n, d=draw(st.integers(1, 3)), alpha=alpha, n_estimators=ne, weights=draw(st.booleans()),
                 n_jobs=draw(st.sampled_from([None, None, 1, 2])), seed=draw(st.integers(0, 2**31 - 1)),
-                yield_fit=draw(st.sampled_from([0, 0, 1])), base_random_state=draw(st.sampled_from([None, None, 0, 7, 12345])),
+                yield_fit=draw(st.sampled_from([0, 0, 1])), base_random_state=draw(st.sampled_from([None, None, 0, 7, 12345])), zero_w=draw(st.lists(st.integers(0, 11), max_size=3)) if draw(st.integers(0, 2)) == 0 else [],
                 container=draw(st.sampled_from(["array", "array", "frame", "frame-permuted-index", "series-permuted-index"])))
 
 
